@@ -137,3 +137,33 @@ Theorem C09_code_argument_assembly : forall w r before after name args fi fi' fi
   | _, _ => False
   end.
 Proof. exact macro_code_assembly. Qed.
+
+(** Nested splices and nested applications: the application against the body in which every
+    splice of one of ITS code parameters is replaced by the argument's statements, recursively
+    (the substituted text may itself contain splices of outer parameters and nested macro
+    applications; argument blocks handed on to nested applications are substituted too) — [subl].
+    Side condition [tinv]: no macro applied while the application scope is open has a parameter
+    named like one of these code parameters (then a splice always resolves to this application;
+    shown necessary: the rebinding examples of NestedExamples), and the twin body is [kclean]. *)
+From A816 Require Import Proofs.NestedSplice.
+Theorem C09_nested_splices_assembly : forall w T r before after name args fi fi' fi'' md cbs body2,
+  let K := MacroCode.code_names cbs in
+  let C := MacroCode.code_of cbs in
+  cg_ok r ->
+  (forall s' ns', code_gen_fuel w cg_depth {| cg_r := r; cg_macros := [] |} before = Ok (s', ns') ->
+     dict_get (cg_macros s') name = Some md /\
+     eval_macro_args w (cg_r s') (md_params md) args = Ok (MacroCode.cbound cbs) /\
+     codes_clean K T (cg_r s') /\ tinv K T (cg_macros s')) ->
+  MacroCode.clits_closed w cbs ->
+  subl C (md_body md) body2 -> kcleanl K T body2 = true ->
+  (forall sF ns, code_gen_fuel w cg_depth {| cg_r := r; cg_macros := [] |}
+                   (before ++ [AMacroApply name args fi] ++ after) = Ok (sF, ns) ->
+     MacroCode.nodes_kfree K ns = true) ->
+  match assemble_ast w r (before ++ [AMacroApply name args fi] ++ after),
+        assemble_ast w r (before ++ [ACompound (MacroCode.cstmts cbs fi'' ++ body2) fi'] ++ after) with
+  | Ok o1, Ok o2 => o_blocks o1 = o_blocks o2 /\ o_labels o1 = o_labels o2
+  | Err j, Err k => j = k
+  | OutOfFuel, OutOfFuel => True
+  | _, _ => False
+  end.
+Proof. exact macro_code_nested_assembly. Qed.
